@@ -212,6 +212,56 @@ theorem C14_syntax (initial : Bytes) (startPos errPos : Nat)
   · have := countLF_take_le initial startPos errPos h1
     simp only; omega
 
+/-- **C14_syntax**, in characters.  When the text is the UTF-8 encoding of characters and parsing stopped in front
+of the character `c` (after `pre0 ++ pre`, the iterator having resumed after `pre0`): the annotated span is exactly the
+bytes of `c` — whatever its width —, `line_start` is one plus the line feeds in `pre0`, and the line shown for the error
+is one plus the line feeds in everything before `c`. -/
+theorem C14_syntax_char (pre0 pre post : List Char) (c : Char) :
+    ∃ pe, parseErrorNew (parseErrorFuel (encode (pre0 ++ pre ++ c :: post))) (encode (pre0 ++ pre ++ c :: post))
+        (encode pre0).length (encode (pre0 ++ pre)).length = .ok pe ∧
+      pe.input = encode (pre ++ c :: post) ∧
+      pe.errorSpan = ⟨(encode pre).length, (encode pre).length + (String.utf8EncodeChar c).length⟩ ∧
+      pe.lineStart = 1 + pre0.count '\n' ∧
+      snippetLine pe.lineStart pe.input pe.errorSpan.start = 1 + (pre0 ++ pre).count '\n' := by
+  have hinit : encode (pre0 ++ pre ++ c :: post) = encode pre0 ++ encode (pre ++ c :: post) := by
+    rw [List.append_assoc, encode_append]
+  have hlen2 : (encode (pre0 ++ pre)).length = (encode pre0).length + (encode pre).length := by
+    rw [encode_append]; simp
+  have hb := boundary_within_char pre post c
+  simp only at hb
+  obtain ⟨hno, hyes, hn0, hle⟩ := hb
+  have h1 : (encode pre0).length ≤ (encode (pre0 ++ pre)).length := by omega
+  have h2 : (encode (pre0 ++ pre)).length < (encode (pre0 ++ pre ++ c :: post)).length := by
+    rw [hinit, hlen2]; simp; omega
+  obtain ⟨pe, stopLine, hnew, hls, hinput, hstart, _, hstop, hlt, _, hstopLine, hshown, _⟩ :=
+    C14_syntax (encode (pre0 ++ pre ++ c :: post)) (encode pre0).length (encode (pre0 ++ pre)).length h1 (by omega)
+  have hin : pe.input = encode (pre ++ c :: post) := by
+    rw [hinput, hinit, List.drop_left' rfl]
+  have hs : pe.errorSpan.start = (encode pre).length := by omega
+  obtain ⟨hgt, hbnd, hnone⟩ := hlt h2
+  rw [hin] at hbnd hnone hstop
+  have hstopEq : pe.errorSpan.stop = (encode pre).length + (String.utf8EncodeChar c).length := by
+    by_cases hlt' : pe.errorSpan.stop < (encode pre).length + (String.utf8EncodeChar c).length
+    · -- strictly inside the character: not a boundary
+      have := hno (pe.errorSpan.stop - (encode pre).length) (by omega) (by omega)
+      rw [show (encode pre).length + (pe.errorSpan.stop - (encode pre).length) = pe.errorSpan.stop by omega] at this
+      rw [this] at hbnd; exact absurd hbnd (by simp)
+    · by_cases hgt' : (encode pre).length + (String.utf8EncodeChar c).length < pe.errorSpan.stop
+      · have := hnone ((encode pre).length + (String.utf8EncodeChar c).length) (by omega) hgt'
+        rw [this] at hyes; exact absurd hyes (by simp)
+      · omega
+  refine ⟨pe, hnew, hin, ?_, ?_, ?_⟩
+  · cases hpe : pe.errorSpan with
+    | mk a b => rw [hpe] at hs hstopEq; simp only at hs hstopEq; rw [hs, hstopEq]
+  · have := C14_line_chars pre0 (pre ++ c :: post)
+    rw [← List.append_assoc] at this
+    rw [this] at hls
+    injection hls with hls; exact hls.symm
+  · have := C14_line_chars (pre0 ++ pre) (c :: post)
+    rw [this] at hstopLine
+    injection hstopLine with hstopLine
+    rw [hshown, ← hstopLine]
+
 /-! ## C14_file -/
 
 /-- **C14_file.**  `report::process` hands each entry to book-keeping together with the path and context the
@@ -265,6 +315,7 @@ example : (ErrorContext.new "f" (PCtx.mk sampleFile ⟨21, 52⟩)).map' (fun c =
     = .ok (4, 31) := by decide
 example : resolve ⟨21, 52⟩ ⟨37, 38⟩ = .ok ⟨16, 17⟩ := by decide
 -- C14_syntax: error at byte 2 (the start of `日`): the span covers the whole 3-byte character
+example : (String.utf8EncodeChar '日').length = 3 := by decide
 example : (parseErrorNew (parseErrorFuel sampleFile) sampleFile 0 2).map' (fun e => (e.lineStart, e.errorSpan))
     = .ok (1, ⟨2, 5⟩) := by decide
 -- ... and at end of input the span is empty (the F1a hang is gone)
